@@ -179,6 +179,37 @@ def main(argv=None):
             # problem if the unit did not report a violation explaining it
             crashes.append((uname, "vacuity guard: never reached %s" % sorted(missing)))
 
+    # ---------------------------------------------------------------- bounded adjudication of everything undecided
+    # (solver unknown, unsupported construct, engine gap): the same contract is evaluated natively on the real code
+    # over pseudo-random + boundary inputs.  A native failure is a violation with a replayable input; a clean
+    # search leaves the obligation undecided (never proved).
+    adj_units = []
+    for u, _ in undecided + gaps:
+        un = u
+        while un and un not in metas:
+            un = un.rsplit("/", 1)[0] if "/" in un else ""
+        if un and un not in [x[1] for x in adj_units] and not metas[un].get("canary") and not metas[un].get("ghost"):
+            adj_units.append((dict((n, m) for m, n in jobs)[un], un))
+    adj_evals = 0
+    if adj_units:
+        n_adj = 400 if tier == "quick" else 4000
+        for (mod, un), (ne, fail) in zip(adj_units, runner.run_adjudications(adj_units, n_adj, seed, a.procs or None)):
+            adj_evals += ne
+            if fail is None:
+                continue
+            if "error" in fail:
+                crashes.append((un, "bounded adjudication crashed: " + fail["error"]))
+                continue
+            o = runner.Obligation(un, fail["name"], 0)
+            o.status, o.backend, o.model = "refuted", "bounded-native-search", fail["model"]
+            o.reason = "found by the bounded native search that adjudicates undecided obligations"
+            o.replay = {"confirmed": True, **fail["replay"]}
+            k = known_match(known, pid, un, o.name)
+            if k is not None:
+                known_hits.append((k, un + "/" + o.name))
+            else:
+                violations.append((mod, un, o))
+
     # ---------------------------------------------------------------- bounded stand-ins / extra native parts
     bounded_info = None
     if spec.get("bounded") and not a.unit:
@@ -264,6 +295,8 @@ def main(argv=None):
         "engine_gaps": [u for u, _ in gaps][:50],
         "canaries_refuted": canaries_refuted,
         "bounded_units": bounded_units,
+        "bounded_adjudication": {"units": [u for _, u in adj_units], "native_evaluations": adj_evals,
+                                 "note": "undecided obligations are searched natively (pseudo-random + boundary inputs); never counted as discharged"},
         "known_findings": sorted(printed_known),
         "samples": samples or [{"note": "no solver-discharged obligation sampled"}],
         "explanation": spec.get("explanation", ""),
